@@ -50,34 +50,39 @@ mod verif_c14_bitset {
         kani::cover!(v1 / 512 > v2 / 512);
         kani::cover!(v1 / 512 == v2 / 512 && v1 != v2);
     }
-    //@harness unit=U14.2r fns=BitSet::iter_ranges,BitSetRangeIter::next,BitSetRangeIter::next_range,BitSetRangeIter::move_to_next_page,BitPage::iter_ranges timeout=1800 bound="sets of 2 members at the first / last offset of 3 pages (incl. a run ending at a page edge followed by an absent page)" note="iter_ranges yields exactly the maximal runs of members, ascending: ranges merge across a page boundary only when the values are numerically adjacent"
+    //@harness unit=U14.2r fns=BitSet::iter_ranges,BitSetRangeIter::next,BitSetRangeIter::next_range,BitSetRangeIter::move_to_next_page,BitPage::iter_ranges timeout=1800 bound="two stored pages (majors 0 and 1 or 2), one member each at the first / last offset (incl. a run ending at a page edge followed by an absent page)" note="iter_ranges yields exactly the maximal runs of members, ascending: ranges merge across a page boundary only when the values are numerically adjacent"
     #[kani::proof]
     #[kani::unwind(12)]
     fn bitset_iter_ranges_two_members() {
-        // members at page edges only (offset 0 or 511 of pages 0..3): the in-page scan is the page layer's business; what
-        // BitSetRangeIter adds is the merging of a run that ends at a page edge with the first run of the NEXT STORED page
-        fn edge_val() -> u32 {
-            let major: u32 = kani::any();
-            kani::assume(major < 3);
-            if kani::any() { major * 512 + 511 } else { major * 512 }
-        }
-        let (v1, v2) = (edge_val(), edge_val());
-        let s = build(v1, v2);
-        let (lo, hi) = if v1 <= v2 { (v1, v2) } else { (v2, v1) };
+        // two stored pages built directly (page 0 and page 1 or 2, well-formed map), one member each at the first or last offset of
+        // its page: the in-page scan is the page layer's business (U14.1); what BitSetRangeIter adds is the merging of a run that
+        // ends at a page edge with the first run of the NEXT STORED page. (Sets built through insert() did not finish in 1800 s.)
+        let off0: u32 = if kani::any() { 511 } else { 0 };
+        let off1: u32 = if kani::any() { 511 } else { 0 };
+        let m1: u32 = if kani::any() { 1 } else { 2 };
+        let mut p0 = BitPage::new_zeroes();
+        p0.insert(off0);
+        let mut p1 = BitPage::new_zeroes();
+        p1.insert(off1);
+        let s = BitSet {
+            pages: vec![p0, p1],
+            page_map: vec![PageInfo { index: 0, major_value: 0 }, PageInfo { index: 1, major_value: m1 }],
+            length: 2,
+        };
+        assert!(wf(&s));
+        let (lo, hi) = (off0, m1 * 512 + off1);
         let mut it = s.iter_ranges();
         let r1 = it.next();
         let r2 = it.next();
         let r3 = it.next();
-        if lo == hi {
-            assert!(r1 == Some(lo..=lo) && r2.is_none());
-        } else if lo + 1 == hi {
+        if lo + 1 == hi {
             assert!(r1 == Some(lo..=hi) && r2.is_none());
         } else {
             assert!(r1 == Some(lo..=lo) && r2 == Some(hi..=hi) && r3.is_none());
         }
-        kani::cover!(lo % 512 == 511 && hi == lo + 1);
+        kani::cover!(lo == 511 && hi == 512);
         kani::cover!(lo == 511 && hi == 1024);
-        kani::cover!(lo / 512 == hi / 512 && lo + 1 < hi);
+        kani::cover!(lo == 0 && hi == 1535);
     }
     // NOTE: harnesses for BitSet::{intersect, union, subtract, reversed_subtract} through the in-place page merge
     // `process` (two operands of two members each) exhausted CBMC's memory (> 16 GB, also with concrete page shapes) and
